@@ -135,6 +135,7 @@ class SimHandler:
         self.stall_at = {}         # nth update -> seconds
         self.ops = collections.deque()
         self.echo = None
+        self.kick_sigs = set()     # payload signatures: the application kicks the sender when it sees one of these
         self.cids = {}
         self.objs = []
 
@@ -197,6 +198,12 @@ class SimHandler:
         w = self.w
         w.delivered("S", client, msg, seqnum)
         self._ev("message", client, sig(msg))
+        if self.kick_sigs and sig(msg) in self.kick_sigs:
+            # the server application does not like this message (a cheat, a bad word): it kicks the sender
+            w.app_event("S", self.cid(client), "server_disconnect_call")
+            w.probe("kick_sender_from_inside_message_handler")
+            client.disconnect()
+            return
         if self.echo is not None and client.status == ConnectionStatus.CONNECTED:
             w.app_send("S", client, {"len": len(msg), "retry": self.echo, "cb": False, "api": "send",
                                        "payload": bytes(msg), "echo": True})
@@ -403,6 +410,54 @@ class ClientNode:
         reply.token = c.conn.token
         self.w.probe("client_resent_challenge_response")
         c.conn._send_type(PacketType.CHALLENGE_RESP, reply.dumpb(), RetryMode.NONE, None)
+
+    def op_rehello(self, op):
+        """A protocol-complete but misbehaving client (a modified game binary): inside its established session it sends
+        another CLIENT_HELLO, sealed under the session key like everything else it sends, and follows the key change
+        should the server answer with a new SERVER_HELLO.  With "burst" it first sends an application message the
+        server application answers with a kick, immediately followed (ignoring the send rate cap) by the hello."""
+        w = self.w
+        c = self.client
+        if c is None or c.conn is None or not c.connected() or self.sock is None:
+            return
+        conn = c.conn
+        sock = self.sock
+        if not getattr(sock, "_follows_rekey", False):
+            sock._follows_rekey = True
+            inner = sock._on_datagram
+
+            def on_datagram(data, src, conn=conn, inner=inner):
+                try:
+                    hdr = conn_mod.PacketHeader.from_bytes(False, data)
+                    if hdr.pkt_type.value == PacketType.SERVER_HELLO.value and conn.session_key_bytes:
+                        pkt = conn_mod.Packet.from_bytes(hdr, None, data)
+                        m = conn_mod.Serializable.loadb(pkt.msgs[0].payload, server_public_key=conn.server_public_key)
+                        conn.session_key_bytes = conn_mod.crypto.ecdh_client(conn.session_key, m.server_pubkey, m.salt)
+                        conn.token = m.token
+                        conn.bitfield_pkt.insert(hdr.seq)
+                        w.probe("misbehaving_client_followed_a_key_change")
+                        return
+                except Exception:       # noqa - not a hello for us: the ordinary path decides
+                    pass
+                inner(data, src)
+            w.net.bind(sock.addr, sock.name, sock.node, on_datagram)
+
+        def flush():
+            pkt = conn._build_packet()
+            if pkt is not None:
+                sock.sendto(conn._encode_packet(pkt), c.addr)
+        msg = conn_mod.HandshakeClientHelloMessage()
+        msg.client_pubkey = conn.session_key.getPublicKey()
+        msg.client_version = conn.version
+        w.probe("client_sent_hello_inside_established_session")
+        if op.get("burst"):
+            rec = w.app_send(self.name, c, {"len": op.get("len", 24), "retry": 0, "cb": False, "api": "send"})
+            w.handler.kick_sigs.add(rec["sig"])
+            flush()
+            conn._send_type(PacketType.CLIENT_HELLO, msg.dumpb(), RetryMode.NONE, None)
+            flush()
+        else:
+            conn._send_type(PacketType.CLIENT_HELLO, msg.dumpb(), RetryMode.NONE, None)
 
     def op_crash(self, op):
         self.w.app_event(self.name, self.inc, "crash")
